@@ -137,7 +137,7 @@ def read_harness(ctx, cfg):
         ok = isinstance(res, D.symnp.MaskedArray) and res.size == n
         ob('the variable comes back as a masked array of its shape', ok, 'read-shape')
         if ok:
-            ob('element type: %s' % ('integer' if integer else 'float (the default)'), res.kind == ('i' if integer else 'f'), 'read-dtype')
+            ob('element type: %s' % ('integer' if integer else 'float (the default)'), (res.kind in ('i', 'u')) if integer else res.kind == 'f', 'read-dtype')
             cells, masks = res.data.cells(), res.maskcells()
             for i in range(n):
                 want = d[i]
@@ -157,6 +157,13 @@ def read_harness(ctx, cfg):
         r['data'] = [float(symx.model_value(mdl, x)) for x in d]
         r['mask'] = [bool(symx.model_value(mdl, x)) for x in m]
         r['mv'] = float(symx.model_value(mdl, mv.e)) if mv is not None else None
+        # what the symbolic run produced under this model: a counterexample is only reported when the real code
+        # produces exactly this (then its disagreement with the reference carries over to the real code)
+        r['sym_outcome'] = oc
+        if oc == 'ok' and isinstance(res, D.symnp.ndarray):
+            r['sym'] = {'data': [float(symx.model_value(mdl, t)) for t in (res.data.cells() if isinstance(res, D.symnp.MaskedArray) else res.cells())],
+                        'mask': [bool(symx.model_value(mdl, t)) for t in res.maskcells()] if isinstance(res, D.symnp.MaskedArray) else None,
+                        'kind': {'u': 'i'}.get(res.kind, res.kind)}
         return r
     return {'outcome': oc, 'obligations': obs, 'groups': groups, 'concretise': conc, 'replay': rec, 'path_check': lambda mdl: check_real(conc(mdl, None), res, oc, mdl)}
 
@@ -183,7 +190,7 @@ def check_real(rec, res, oc, m):
     rr = rep['results']['R']
     sm = [bool(symx.model_value(m, t)) for t in res.maskcells()]
     sv = [float(symx.model_value(m, t)) for t in res.data.cells()]
-    ok = (rr['mask'] or [False] * len(sv)) == sm and all(mk or D.close(a, b) for a, b, mk in zip(sv, rr['data'], sm)) and {'f': 'f', 'i': 'i', 'u': 'i'}.get(rr['kind']) == res.kind
+    ok = (rr['mask'] or [False] * len(sv)) == sm and all(mk or D.close(a, b) for a, b, mk in zip(sv, rr['data'], sm)) and {'f': 'f', 'i': 'i', 'u': 'i'}.get(rr['kind']) == {'u': 'i'}.get(res.kind, res.kind)
     return ok, 'symbolic %s/%s/%s vs real %s/%s/%s' % (sv, sm, res.kind, rr['data'], rr['mask'], rr['kind'])
 
 
@@ -230,7 +237,21 @@ def confirm(rec, label):
     if rec.get('kind') == 'read' and 'data' in rec:
         rep = real_read(rec)
         D.WORKER.close()
-        return True, 'real netCDF4 file + real EEMSRead: %s' % (('ok ' + str(rep['results']['R'])[:200]) if rep.get('ok') else '%s(%s) %s' % (rep.get('exc'), rep.get('inner'), rep.get('msg', '')[:120]))
+        desc = 'real netCDF4 file + real EEMSRead: %s' % (('ok ' + str(rep['results']['R'])[:200]) if rep.get('ok') else '%s(%s) %s' % (rep.get('exc'), rep.get('inner'), rep.get('msg', '')[:120]))
+        if 'sym_outcome' not in rec:
+            return True, desc
+        if not rep.get('ok'):
+            real_oc = rep.get('exc')
+            if real_oc == 'UnexpectedError':
+                real_oc = 'UnexpectedError(%s)' % rep.get('inner')
+            return real_oc == rec['sym_outcome'], desc + ' (symbolic run: %s)' % rec['sym_outcome']
+        if rec['sym_outcome'] != 'ok' or 'sym' not in rec:
+            return False, desc + ' (symbolic run: %s)' % rec['sym_outcome']
+        rr, sy = rep['results']['R'], rec['sym']
+        rmask = rr['mask'] or [False] * len(rr['data'])
+        smask = sy['mask'] or [False] * len(sy['data'])
+        same = rmask == smask and {'u': 'i'}.get(rr['kind'], rr['kind']) == sy['kind'] and all(mk or D.close(a, b) for a, b, mk in zip(sy['data'], rr['data'], smask))
+        return same, desc + ('' if same else ' - differs from the symbolic run %s' % sy)
     return True, 'executed on the real code'
 
 
